@@ -234,6 +234,8 @@ def gen_spec(rng, idx, small=False):
             curve = pts
         tanks.append({"name": "T%d" % k, "elev": round(rng.uniform(40, 90), 2), "min": lo, "max": hi,
                       "init": round(rng.uniform(lo, hi), 2), "diam": round(rng.uniform(3, 40), 2), "curve": curve})
+    if tanks and rng.random() < 0.12:
+        res = []  # a network fed by tanks only: no reservoir term (and no pump term) in the Todini index
     nodes = [j["name"] for j in juncs]
     pipes = []
     k = 0
@@ -593,11 +595,58 @@ class C20(Check):
         except Exception as e:
             if not any(f.key.startswith("average_expected_demand") for f in fails):
                 fail("population-exception", "population raised %s: %s" % (type(e).__name__, e), {"call": "population"})
+        self.population_impacted(ctx, spec, wn, reqs, fail, rng, sid)
         # ---- results-table metrics on random tables
         self.table_metrics(ctx, spec, wn, reqs, fail, rng, sid)
         self.cost_metrics(ctx, spec, wn, reqs, fail, rng, sid)
         if with_sim:
             self.sim_check(ctx, spec, wn, fail, sid)
+
+    def population_impacted(self, ctx, spec, wn, reqs, fail, rng, sid):
+        """population_impacted(pop, arg1, operation, arg2) = pop where operation(arg1, arg2) holds, else 0
+        (DataFrame: per node and time; Series: per node); arg2 a scalar or a table of the same shape"""
+        import numpy as np
+        import pandas as pd
+
+        wntr = vlib.import_wntr()
+        jn = wn.junction_name_list
+        times = [0, 3600, 7200][: rng.randint(1, 3)]
+        ops = [("lt", np.less), ("gt", np.greater), ("le", np.less_equal), ("ge", np.greater_equal), ("eq", np.equal), ("ne", np.not_equal)]
+        opn, op = rng.choice(ops)
+        grid = [0.0, 10.0, 20.0, 21.09, 35.5]  # thresholds are hit exactly now and then
+        pop = pd.Series({n: float(rng.choice([0, 1, 17, 250, 1141])) for n in jn})
+        cols = list(jn)
+        rng.shuffle(cols)
+        a1 = pd.DataFrame({n: [rng.choice(grid + [round(rng.uniform(-5, 60), 2)]) for _ in times] for n in cols}, index=times)
+        if rng.random() < 0.5:
+            a2 = rng.choice(grid)
+            a2at = lambda tt, n: a2
+        else:
+            a2 = pd.DataFrame({n: [rng.choice(grid) for _ in times] for n in cols}, index=times)  # identically labelled, as documented
+            a2at = lambda tt, n: float(a2.loc[tt, n])
+        series = rng.random() < 0.3
+        try:
+            if series:
+                t0 = times[0]
+                pi_ = wntr.metrics.population_impacted(pop, a1.loc[t0, :], op, a2 if not isinstance(a2, pd.DataFrame) else a2.loc[t0, :])
+                obs = {(t0, n): float(pi_[n]) for n in jn}
+            else:
+                pi_ = wntr.metrics.population_impacted(pop, a1, op, a2)
+                obs = {(tt, n): float(pi_.loc[tt, n]) for tt in times for n in jn}
+        except Exception as e:
+            fail("population_impacted-exception", "population_impacted raised %s: %s" % (type(e).__name__, e), {"call": "population_impacted", "operation": opn})
+            return
+        for (tt, n), impl in obs.items():
+            x, y, p_ = float(a1.loc[tt, n]), a2at(tt, n), float(pop[n])
+
+            def cb(o, impl=impl, tt=tt, n=n, x=x, y=y, p_=p_):
+                ctx.case(("popimp", sid, opn, tt, n), True)
+                ctx.count("population_impacted_%s" % ("series" if series else "frame"))
+                if not close(impl, parse_rat(o)):
+                    fail("population_impacted-value", "population_impacted[%s][t=%d] = %r for %r %s %r and population %r; documented: %s" % (n, tt, impl, x, opn, y, p_, o),
+                         {"call": "population_impacted", "operation": opn, "arg1": x, "arg2": y, "pop": p_, "observed": impl, "expected": o})
+
+            reqs.add("popimp %s %s %s %s" % (opn, fs(x), fs(y), fs(p_)), cb)
 
     def table_metrics(self, ctx, spec, wn, reqs, fail, rng, sid):
         import numpy as np
@@ -619,7 +668,8 @@ class C20(Check):
         demand = pd.DataFrame({n: [(rnd(-0.05, 0) if n in rn else rnd(0, 0.03) if rng.random() < 0.85 else 0.0) for _ in times] for n in cols}, index=times)
         lcols = list(links)
         rng.shuffle(lcols)
-        flow = pd.DataFrame({l: [rnd(-0.02, 0.2) for _ in times] for l in lcols}, index=times)
+        # pumps: sometimes closed (flow exactly 0); heads are random, so negative head gains occur as well
+        flow = pd.DataFrame({l: [(0.0 if (l in pn and rng.random() < 0.2) else rnd(-0.02, 0.2)) for _ in times] for l in lcols}, index=times)
         pstar = rng.choice([20, 21.09, 0, 35.5, 10])
         has = bool(pn) or bool(tn)
         # Todini
@@ -635,6 +685,7 @@ class C20(Check):
                     ctx.case(("todini", sid, tt), True)
                     ctx.count("todini_index")
                     ctx.count("todini_pumps_%d" % min(len(pn), 2))
+                    ctx.count("todini_reservoirs_%d" % min(len(rn), 2))
                     if not close(impl, parse_rat(o), rel=1e-7):
                         fail("todini_index-value", "todini_index at t=%d = %r, documented formula = %s" % (tt, impl, o),
                              {"call": "todini_index", "t": tt, "observed": impl, "expected": o, "tables": {"head": head.to_dict(), "pressure": pressure.to_dict(), "demand": demand.to_dict(), "flow": flow.to_dict()}, "Pstar": pstar})
@@ -718,18 +769,33 @@ class C20(Check):
                 for tt in times:
                     impl = float(w.loc[tt, n])
 
-                    def cb(o, impl=impl, n=n, tt=tt):
+                    def cb(o, impl=impl, n=n, tt=tt, d_=float(act.loc[tt, n]), e_=float(exp.loc[tt, n])):
                         ctx.case(("wsa", sid, n, tt), True)
                         ctx.count("wsa")
-                        if not close(impl, parse_rat(o)):
+                        if o == "nan":
+                            # documented: "If expected demand is 0 ..., water service availability will be set to NaN"
+                            ctx.count("wsa_zero_expected_%s" % ("zero_demand" if d_ == 0 else "nonzero_demand"))
+                            if not math.isnan(impl):
+                                fail("water_service_availability-zero-expected-inf",
+                                     "WSA[%s][t=%d] = %r for demand %r over an expected demand of 0; documented: NaN" % (n, tt, impl, d_),
+                                     {"call": "water_service_availability", "demand": d_, "expected_demand": e_, "observed": impl, "expected": "nan"})
+                        elif not close(impl, parse_rat(o)):
                             fail("water_service_availability-value", "WSA[%s][t=%d] = %r, demand/expected = %s" % (n, tt, impl, o),
                                  {"call": "water_service_availability", "observed": impl, "expected": o})
 
                     reqs.add("wsa %s %s" % (fs(act.loc[tt, n]), fs(exp.loc[tt, n])), cb)
                 impl = float(ws[n])
-                reqs.add("wsa %s %s" % (fs(float(act[n].sum())), fs(float(exp[n].sum()))),
-                         lambda o, impl=impl, n=n: (ctx.case(("wsa-sum", sid, n), True), None if close(impl, parse_rat(o)) else fail(
-                             "water_service_availability-value", "WSA(sum)[%s] = %r, documented = %s" % (n, impl, o), {"call": "wsa-series"})))
+
+                def cbs(o, impl=impl, n=n):
+                    ctx.case(("wsa-sum", sid, n), True)
+                    if o == "nan":
+                        if not math.isnan(impl):
+                            fail("water_service_availability-zero-expected-inf", "WSA(sums over time)[%s] = %r over an expected demand of 0; documented: NaN" % (n, impl),
+                                 {"call": "wsa-series", "observed": impl, "expected": "nan"})
+                    elif not close(impl, parse_rat(o)):
+                        fail("water_service_availability-value", "WSA(sum)[%s] = %r, documented = %s" % (n, impl, o), {"call": "wsa-series"})
+
+                reqs.add("wsa %s %s" % (fs(float(act[n].sum())), fs(float(exp[n].sum()))), cbs)
         except Exception as e:
             fail("water_service_availability-exception", "water_service_availability raised %s: %s" % (type(e).__name__, e), {"call": "wsa"})
         # pump power / energy / cost
@@ -865,6 +931,8 @@ class C20(Check):
         wntr = vlib.import_wntr()
         if spec["time"]["duration"] == 0 or spec["pumps"] or spec["valves"]:
             return
+        if not spec["reservoirs"]:
+            return  # fed by tanks only: a tank running empty isolates junctions and the simulator sets their demand to 0
         try:
             wn2 = build(spec)
             wn2.options.hydraulic.demand_model = "DD"
